@@ -6,19 +6,26 @@ extern int g_throw, g_debug; extern unsigned g_errors, g_error_bits;
 extern long long g_step_rel, g_step_abs; extern int g_sim_continuing, g_sim_running;
 /* colvarmodule::calc_colvars, head (C08): an object with time-step factor n > 1 is woken exactly on absolute steps that are
    multiples of n and put to sleep otherwise; objects with factor <= 1 are left alone; the active list is the enabled variables, in order */
-extern int g_nawake, g_aw_kind[4], g_aw_tag[4], g_aw_on[4]; extern int g_active_tag[2]; extern size_t g_nactive;
-void k_awake(int kind, int tag, int on) __CPROVER_requires(0 <= g_nawake && g_nawake < 4)
+extern int g_nawake, g_aw_kind[6], g_aw_tag[6], g_aw_on[6]; extern int g_active_tag[2]; extern size_t g_nactive; extern int g_state[6];
+void k_awake(int kind, int tag, int on) __CPROVER_requires(0 <= g_nawake && g_nawake < 6)
   __CPROVER_assigns(g_nawake, g_aw_kind[g_nawake], g_aw_tag[g_nawake], g_aw_on[g_nawake])
   __CPROVER_ensures(g_nawake == __CPROVER_old(g_nawake) + 1 && g_aw_kind[g_nawake - 1] == kind && g_aw_tag[g_nawake - 1] == tag && g_aw_on[g_nawake - 1] == on);
 #define DUE(n) ((g_step_abs % (n)) == 0 ? 1 : 0)
-int k_calc_colvars_head(int btsf, int vtsf0, int vtsf1, _Bool en0, _Bool en1)
+int k_calc_colvars_head(int btsf, int vtsf0, int vtsf1, _Bool en0, _Bool en1, _Bool bawake, _Bool vawake)
 __CPROVER_requires((btsf == 1 || btsf == 3) && (vtsf0 == 1 || vtsf0 == 3) && vtsf1 == 1 && g_nawake == 0 && g_step_abs >= 0 && g_step_abs <= 4000000000000LL)
-__CPROVER_assigns(__CPROVER_object_whole(e_l), g_nawake, __CPROVER_object_whole(g_aw_kind), __CPROVER_object_whole(g_aw_tag), __CPROVER_object_whole(g_aw_on), __CPROVER_object_whole(g_active_tag), g_nactive)
-__CPROVER_ensures(g_nawake == (btsf > 1 ? 1 : 0) + (vtsf0 > 1 ? 1 : 0))
-__CPROVER_ensures(btsf > 1 ==> (g_aw_kind[0] == 0 && g_aw_tag[0] == 0 && g_aw_on[0] == DUE(3)))
+__CPROVER_assigns(__CPROVER_object_whole(e_l), g_nawake, __CPROVER_object_whole(g_aw_kind), __CPROVER_object_whole(g_aw_tag), __CPROVER_object_whole(g_aw_on), __CPROVER_object_whole(g_active_tag), g_nactive, __CPROVER_object_whole(g_state))
+/* a bias with factor n > 1 is active after the head exactly on absolute steps that are multiples of n -- whether it was awake before, or
+   still active from its initialisation without ever having been woken up (a run that does not start on a multiple of n) */
+__CPROVER_ensures(btsf > 1 ==> (g_state[0] == DUE(3) && g_state[1] == DUE(3)))
+__CPROVER_ensures(btsf <= 1 ==> (g_state[0] == 1 && g_state[1] == bawake))
+/* its first event is the wake-up or the sleep request for this step */
+__CPROVER_ensures(btsf > 1 ==> (g_nawake >= 1 && g_aw_kind[0] == 0 && g_aw_tag[0] == 0 && g_aw_on[0] == DUE(3)))
+/* variables: the wake-up / sleep request is issued for the right step (their activity also depends on the biases that use them: n/d) */
 __CPROVER_ensures(vtsf0 > 1 ==> (g_aw_kind[g_nawake - 1] == 1 && g_aw_tag[g_nawake - 1] == 0 && g_aw_on[g_nawake - 1] == DUE(3)))
-__CPROVER_ensures(g_nactive == (en0 ? 1 : 0) + (en1 ? 1 : 0))
-__CPROVER_ensures((en0 && en1) ==> (g_active_tag[0] == 0 && g_active_tag[1] == 1))
-__CPROVER_ensures((!en0 && en1) ==> g_active_tag[0] == 1)
+__CPROVER_ensures(vtsf0 <= 1 ==> (g_state[2] == en0))
+#define A0 (g_state[2] != 0)
+__CPROVER_ensures(g_nactive == (A0 ? 1 : 0) + (en1 ? 1 : 0))
+__CPROVER_ensures((A0 && en1) ==> (g_active_tag[0] == 0 && g_active_tag[1] == 1))
+__CPROVER_ensures((!A0 && en1) ==> g_active_tag[0] == 1)
 ;
 #endif
